@@ -275,13 +275,18 @@ BufTick(S) ==
         S2 == IF c2h THEN Spawn([S1 EXCEPT !.nmove = @ + 1], C2hPid(S1.nmove + 1), Loc0) ELSE S1
     IN IF crash THEN Die(Raise(S0, "IndexError"), pid) ELSE Sleep(S2, pid, STEP)
 
-(* hot -> cold: both sides move Min(left, cold rate) per step (code as is) *)
+(* tier moves: both sides move Min(left, slower of the two rates) per step; *)
+(* a non-positive cold rate means `real time` (the whole observation at    *)
+(* once).  A move whose destination lacks room is refused and leaves       *)
+(* everything as it was.                                                   *)
+MoveRate == IF cfg.coldRate > 0 THEN MinI(cfg.hotRate, cfg.coldRate) ELSE cfg.coldRate
+Chunk(S, o, left) == IF MoveRate > 0 THEN MinI(left, MoveRate) ELSE S.obs[o].data
 H2CMove(S, pid) ==
     LET loc == S.procs[pid]
         o == loc.ph
         left == loc.left
     IN IF left <= 0 THEN EndProc(EmitBuf(S, o, "transfer", "stopped"), pid)
-       ELSE LET x == IF cfg.coldRate > 0 THEN MinI(left, cfg.coldRate) ELSE S.obs[o].data
+       ELSE LET x == Chunk(S, o, left)
                 left2 == left - x
                 S1 == [S EXCEPT !.buf.coldFree = @ - x, !.buf.hotFree = @ + x,
                                 !.buf.coldTr = IF left2 = 0 THEN "" ELSE o,
@@ -290,7 +295,6 @@ H2CMove(S, pid) ==
                                 !.buf.dataLeft = left2,
                                 !.procs[pid].left = left2]
             IN Sleep(S1, pid, STEP)
-
 H2CStep(S, pid) ==
     LET loc == S.procs[pid]
     IN IF ~loc.started
@@ -300,30 +304,28 @@ H2CStep(S, pid) ==
                      S1 == [S EXCEPT !.buf.hotStored = SeqFront(@), !.buf.hotTr = o,
                                      !.buf.dataLeft = size]
                  IN IF ~ColdHasCapacity(S1, size)
-                    THEN EndProc([S1 EXCEPT !.buf.hotStored = Append(@, o), !.buf.hotTr = ""], pid)
+                    THEN EndProc([S1 EXCEPT !.buf.hotStored = Append(@, o), !.buf.hotTr = "",
+                                            !.buf.dataLeft = 0], pid)
                     ELSE LET S2 == EmitBuf([S1 EXCEPT !.procs[pid] =
                                                [Loc(TRUE, size, NoM, "", EmptyFn) EXCEPT !.ph = o]],
                                            o, "transfer", "started")
                          IN H2CMove(S2, pid)
        ELSE H2CMove(S, pid)
-(* cold -> hot: hot side Min(hot rate, cold rate), cold side cold rate;    *)
-(* different remainders raise RuntimeError (code as is)                    *)
+
 C2HMove(S, pid) ==
     LET loc == S.procs[pid]
         o == loc.ph
         left == loc.left
         r == MinI(cfg.hotRate, cfg.coldRate)
     IN IF left <= 0 THEN EndProc(EmitBuf(S, o, "transfer", "stopped"), pid)
-       ELSE LET x1 == IF r > 0 THEN MinI(left, r) ELSE S.obs[o].data
-                x2 == IF cfg.coldRate < 0 THEN S.obs[o].data ELSE MinI(left, cfg.coldRate)
-                l1 == left - x1
-                l2 == left - x2
-                S1 == [S EXCEPT !.buf.hotFree = @ - x1, !.buf.coldFree = @ + x2,
-                                !.buf.hotTr = IF l1 = 0 THEN "" ELSE o,
-                                !.buf.hotStored = IF l1 = 0 THEN Append(@, o) ELSE @,
+       ELSE LET x == IF r > 0 THEN MinI(left, r) ELSE S.obs[o].data
+                l2 == left - x
+                S1 == [S EXCEPT !.buf.hotFree = @ - x, !.buf.coldFree = @ + x,
+                                !.buf.hotTr = IF l2 = 0 THEN "" ELSE o,
+                                !.buf.hotStored = IF l2 = 0 THEN Append(@, o) ELSE @,
                                 !.buf.coldTr = IF l2 = 0 THEN "" ELSE o,
                                 !.procs[pid].left = l2]
-            IN IF l1 # l2 THEN Die(Raise(S1, "RuntimeError"), pid) ELSE Sleep(S1, pid, STEP)
+            IN Sleep(S1, pid, STEP)
 C2HStep(S, pid) ==
     LET loc == S.procs[pid]
     IN IF ~loc.started
